@@ -90,7 +90,9 @@ def _execute_inner(setup, schedule, rng, record, TrajectoryStore):
         prio = list(names)
         rng.shuffle(prio)
         state['prio'] = prio
-        state['changes'] = sorted(rng.randrange(1, 400) for _ in range(policy['d']))
+        # priority change points: uniform over the run, or concentrated where the first constructors run
+        hi = policy.get('span', 400)
+        state['changes'] = sorted(rng.randrange(1, hi) for _ in range(policy['d']))
 
     def choose(runnable, step):
         if schedule is not None:
@@ -140,6 +142,15 @@ def _execute_inner(setup, schedule, rng, record, TrajectoryStore):
                         TrajectoryStore.open(base_file=setup['junk'] + '.does-not-exist')
                     except Exception as e:  # noqa: BLE001
                         sched.log('open_missing', name, outcome=type(e).__name__)
+                    continue
+                if act == 'fork':
+                    # the process forks (a multiprocessing pool, a subprocess helper): the child goes
+                    # away at once; nothing about who owns the stores changes in this process
+                    pid = os.fork()
+                    if pid == 0:
+                        os._exit(0)
+                    os.waitpid(pid, 0)
+                    sched.log('fork', name)
                     continue
                 if act == 'open_bad':
                     # opening a file that exists but is not a store fails; it must not change
@@ -304,6 +315,8 @@ def draw_setup(rng: random.Random, tier: str) -> dict:
                 sc.append('open_bad')
             elif r2 < 0.54:
                 sc.append('open_missing')
+            elif r2 < 0.62:
+                sc.append('fork')
         if rng.random() < 0.12:
             # often as the very first store operation of the process
             sc.insert(0 if rng.random() < 0.6 else rng.randint(0, len(sc)), 'merge')
@@ -314,12 +327,12 @@ def draw_setup(rng: random.Random, tier: str) -> dict:
     elif r < 0.65:
         policy = {'kind': 'sticky', 'p': rng.choice([0.05, 0.2, 0.5])}
     elif r < 0.85:
-        policy = {'kind': 'pct', 'd': rng.choice([1, 2])}
+        policy = {'kind': 'pct', 'd': rng.choice([1, 2]), 'span': rng.choice([40, 80, 150, 400])}
     else:
         order = [f'T{i}' for i in range(nthreads)]
         rng.shuffle(order)
         policy = {'kind': 'sequential', 'order': order}
-    opcode = (tier == 'thorough' and rng.random() < 0.4) or (tier == 'quick' and rng.random() < 0.1)
+    opcode = (tier == 'thorough' and rng.random() < 0.4) or (tier == 'quick' and rng.random() < 0.3)
     # distinct threads may carry the same name: identity is the thread, not its label
     return {'op': 'setup', 'threads': scripts, 'policy': policy, 'opcode': bool(opcode),
             'same_names': rng.random() < 0.25}
